@@ -39,6 +39,9 @@ class Missing(metaclass=MissingType):
     ) -> bool:
         return value is MISSING
 
+    def __hash__(self) -> int:
+        return hash(self.__class__)
+
     def __str__(self) -> str:
         return "MISSING"
 
